@@ -2354,7 +2354,7 @@ fn build_negotiated_settings(config: &ProtocolStateConfig, packet: &ConnackPacke
     let final_client_id =
         if packet.assigned_client_identifier.is_some() {
             packet.assigned_client_identifier.as_ref().unwrap().clone()
-        } else if connect.client_id.is_some() {
+        } else if connect.client_id.as_deref().map_or(false, |client_id| !client_id.is_empty()) {
             connect.client_id.as_ref().unwrap().clone()
         } else if let Some(settings) = &existing_settings {
             settings.client_id.clone()
